@@ -9,6 +9,7 @@ import (
 	"strconv"
 	"strings"
 	"time"
+	"unicode/utf8"
 
 	"github.com/twpayne/go-geom"
 	"github.com/twpayne/go-geom/encoding/wkt"
@@ -25,10 +26,40 @@ type c06Case struct {
 	Diff bool   `json:"differential"` // compare accept/reject and result with the reference reader
 }
 
+// MarshalJSON / UnmarshalJSON: a text that is not valid UTF-8 cannot travel through a JSON string
+// (encoding/json replaces the offending bytes); it is stored as bytes instead.
+func (cs c06Case) MarshalJSON() ([]byte, error) {
+	type wire struct {
+		Text  string `json:"text,omitempty"`
+		Bytes []byte `json:"text_bytes,omitempty"`
+		Diff  bool   `json:"differential"`
+	}
+	if utf8.ValidString(cs.Text) {
+		return json.Marshal(wire{Text: cs.Text, Diff: cs.Diff})
+	}
+	return json.Marshal(wire{Bytes: []byte(cs.Text), Diff: cs.Diff})
+}
+
+func (cs *c06Case) UnmarshalJSON(b []byte) error {
+	var w struct {
+		Text  string `json:"text"`
+		Bytes []byte `json:"text_bytes"`
+		Diff  bool   `json:"differential"`
+	}
+	if err := json.Unmarshal(b, &w); err != nil {
+		return err
+	}
+	cs.Text, cs.Diff = w.Text, w.Diff
+	if w.Bytes != nil {
+		cs.Text = string(w.Bytes)
+	}
+	return nil
+}
+
 func init() {
 	engine.Register(&engine.Check{
 		ID: "C06", Level: "model_checking",
-		Rule:   "tree of ALL token sequences, complete to the stated depth in three tiers: (i) full alphabet (28 type keywords, EMPTY, '(' ')' ',', coordinate tokens of arity 1..5) to depth 9 (quick) / 10 (thorough); (ii) reduced alphabet {POINT,MULTIPOINT,MULTIPOLYGON,GEOMETRYCOLLECTION} x {base,Z,M,ZM} + EMPTY ( ) , + 8 coordinate tokens (two values per arity 2..4 so that unclosed rings and Z/M-only differences occur) to depth 11 / 13; (iii) tiny alphabet {GC, GC M, GC Z, POINT, POINT M, POINT Z, EMPTY ( ) , arity 2, 3} to depth 16 / 19; (iv) ring alphabet {POLYGON} x {base,Z,M,ZM} + EMPTY ( ) , + 11 coordinate tokens (arity 2..4, values differing in X/Y, in Z only, in M only, by one ulp in X and in Z) to depth 14 / 16 (rings of up to 5 / 6 positions in every layout). A prefix is extended unless the parse failed strictly before its last token (or at the last token and no continuation can re-lex it) - sound for an LALR(1) parser; every explored sequence is parsed by wkt.Unmarshal (no panic; error renders with a position inside the input; accepted => well-formed, one layout, lines >=2, rings closed >=4, re-encode round trip) and compared with the independent reference reader (accept/reject and geometry). Plus a numeric-literal lattice (3 signs x 17 mantissas x 16 exponent forms in three positions), every tier-(iii) sequence of <=5 (thorough 6) tokens re-rendered with four whitespace styles (verdict must not change; errors on later lines / far into a line must render), every single-token deletion/substitution/transposition of every valid corpus text, and every byte string of length <=4 (quick) / <=5 (thorough) over a 20-byte alphabet. states = explored sequences (viable prefixes + leaves) Also: digit strings of 1..25 digits, the int64/uint64 limits and their neighbours as numeric literals.",
+		Rule:   "tree of ALL token sequences, complete to the stated depth in three tiers: (i) full alphabet (28 type keywords, EMPTY, '(' ')' ',', coordinate tokens of arity 1..5) to depth 9 (quick) / 10 (thorough); (ii) reduced alphabet {POINT,MULTIPOINT,MULTIPOLYGON,GEOMETRYCOLLECTION} x {base,Z,M,ZM} + EMPTY ( ) , + 8 coordinate tokens (two values per arity 2..4 so that unclosed rings and Z/M-only differences occur) to depth 11 / 13; (iii) tiny alphabet {GC, GC M, GC Z, POINT, POINT M, POINT Z, EMPTY ( ) , arity 2, 3} to depth 16 / 19; (iv) ring alphabet {POLYGON} x {base,Z,M,ZM} + EMPTY ( ) , + 11 coordinate tokens (arity 2..4, values differing in X/Y, in Z only, in M only, by one ulp in X and in Z) to depth 14 / 16 (rings of up to 5 / 6 positions in every layout). A prefix is extended unless the parse failed strictly before its last token (or at the last token and no continuation can re-lex it) - sound for an LALR(1) parser; every explored sequence is parsed by wkt.Unmarshal (no panic; error renders with a position inside the input; accepted => well-formed, one layout, lines >=2, rings closed >=4, re-encode round trip) and compared with the independent reference reader (accept/reject and geometry). Plus a numeric-literal lattice (3 signs x 17 mantissas x 16 exponent forms in three positions), every tier-(iii) sequence of <=5 (thorough 6) tokens re-rendered with four whitespace styles (verdict must not change; errors on later lines / far into a line must render), every single-token deletion/substitution/transposition of every valid corpus text, every byte string of length <=4 (quick) / <=5 (thorough) over a 20-byte alphabet, and ~150000 strings made of two runs (lengths 0..64 around the renderer's 30-column window) of blanks, letters, UTF-8 continuation bytes, bytes the lexer treats as blanks, and 2-, 3- and 4-byte characters, on a first or second line, before five tails. states = explored sequences (viable prefixes + leaves) Also: digit strings of 1..25 digits, the int64/uint64 limits and their neighbours as numeric literals.",
 		Run:    c06Run,
 		Replay: func(c *engine.Ctx, kind string, raw json.RawMessage) { c06Exec(c, decodeCase[c06Case](raw)) },
 		Assumptions: []string{
@@ -408,6 +439,33 @@ func c06Run(c *engine.Ctx) {
 				sw := append([]string{}, toks...)
 				sw[p], sw[p+1] = sw[p+1], sw[p]
 				try(sw)
+			}
+		}
+	})
+	// long runs of one byte followed by a run of another, far into a first or second line, before
+	// various tails: the error renderer cuts a window of the line around the error position and
+	// must cope with whatever the window starts and ends in (continuation bytes, bytes that the
+	// lexer treats as blanks, multi-byte characters)
+	runBytes := []string{" ", "x", "\x80", "\x85", "\xa0", "\xbf", "\xc3", "\xc3\xa9", "\xe2\x82\xac", "\xf0\x9f\x98\x80", "\xff"}
+	runLens := []int{0, 1, 29, 30, 31, 41, 42, 43, 64}
+	tails := []string{"", "x", "POINT (", ")", "POINT (1 2)"}
+	type runJob struct{ b1, b2 string }
+	var runJobs []runJob
+	for _, b1 := range runBytes {
+		for _, b2 := range runBytes {
+			runJobs = append(runJobs, runJob{b1, b2})
+		}
+	}
+	c.Parallel(len(runJobs), func(i int) {
+		for _, n1 := range runLens {
+			for _, n2 := range runLens {
+				for _, tail := range tails {
+					for _, pre := range []string{"", "POINT (1 2)\n", "POINT (1 2) "} {
+						c06Exec(c, c06Case{Text: pre + strings.Repeat(runJobs[i].b1, n1) + strings.Repeat(runJobs[i].b2, n2) + tail})
+						c.Count("evaluations", 1)
+						c.Count("long_run_strings", 1)
+					}
+				}
 			}
 		}
 	})
